@@ -96,6 +96,10 @@ def main():
                 if b == 'unpicklable_answer':
                     # the replayed operation ends with an exception the consumer process cannot unpickle: the worker is healthy and stays alive
                     raise RejectedError(409, 'duplicate')
+                if b == 'leaves_timer':
+                    # replayed code schedules a clean-up for later (a non-daemon threading.Timer): the worker cannot exit before it fired
+                    import threading
+                    threading.Timer(case.get('timer_s', 2.2), lambda: None).start()
                 if b == 'spawn_child':
                     # replayed code that hands work to a helper process of its own
                     import multiprocessing
